@@ -1,54 +1,10 @@
-import AdeptModel
-/-! `adept_model <family>`: line protocol on stdin/stdout, one result line per input line. -/
-open Adept
-
-def splitWords (line : String) : List String :=
-  (line.trimAscii.toString.splitOn " ").filter (· ≠ "")
-
-partial def lines (h : IO.FS.Stream) (f : σ → List String → σ × String) (s : σ) : IO Unit := do
-  let line ← h.getLine
-  if line.isEmpty then return ()
-  let ws := splitWords line
-  if ws.isEmpty then lines h f s else
-  let (s', out) := f s ws
-  IO.println out
-  lines h f s'
-
-namespace GallocDrv
-open GradAlloc
-/-- handle table: handle ↦ (index, n, scalar?) -/
-structure St where
-  ga : GA := GradAlloc.stackInit
-  tab : List (Nat × Nat × Nat × Bool) := []
-def step (s : St) (ws : List String) : St × String :=
-  match ws with
-  | ["reset"] => ({}, "reset")
-  | ["a1", k] => match k.toNat? with
-    | some k => let (g, i) := reg1 s.ga
-                ({ ga := g, tab := (k, i, 1, true) :: s.tab.filter (·.1 ≠ k) }, observe g (some i))
-    | none => (s, "bad-op")
-  | [c, k, n] =>
-    if c = "av" ∨ c = "af" then
-      match k.toNat?, n.toNat? with
-      | some k, some n =>
-        if c = "af" ∧ (n < 1 ∨ n > 4) then (s, "bad-op") else
-        let (g, i) := regN n s.ga
-        ({ ga := g, tab := (k, i, n, false) :: s.tab.filter (·.1 ≠ k) }, observe g (some i))
-      | _, _ => (s, "bad-op")
-    else (s, "bad-op")
-  | ["d", k] => match k.toNat? with
-    | some k => match s.tab.find? (·.1 = k) with
-      | some (_, i, n, sc) =>
-        let g := if sc then unreg1 i s.ga else unregN i n s.ga
-        ({ ga := g, tab := s.tab.filter (·.1 ≠ k) }, observe g none)
-      | none => (s, "bad-op")
-    | none => (s, "bad-op")
-  | ["nr"] => let g := newRecording s.ga; ({ s with ga := g }, observe g none)
-  | _ => (s, "bad-op")
-end GallocDrv
+import Driver.Common
+import Driver.Galloc
+/-! `adept_model <family>`: line protocol on stdin/stdout, one result line per input line.
+    Every import of this file must stay free of Mathlib (the driver is linked natively). -/
+open Adept Adept.Drv
 
 def main (args : List String) : IO UInt32 := do
-  let stdin ← IO.getStdin
   match args with
-  | ["galloc"] => lines stdin GallocDrv.step {}; return 0
+  | ["galloc"] => runFamily GallocDrv.step {}; return 0
   | _ => IO.eprintln "usage: adept_model <family>"; return 2
